@@ -791,4 +791,127 @@ example :
 theorem implementation_tables_sound : implShortTakesIface = false ∧ implLongTakesIface = false := by
   decide
 
+/-! ### round 6 - the body of a separate module procedure in the module of its own interface -/
+
+/-- **One entity, one accessibility (long form).**  The body of a separate module procedure may stand in the
+    module that declares its interface body; FORD then keeps two objects for the one entity: the interface entry
+    (`interface ... module subroutine n ... end interface`, in `interfaces`) and the procedure `module subroutine n`
+    / `module function n` (in `subroutines` / `functions`).  With the deletion order of the code as it is
+    (`afterLoop`: an `attr_dict` entry outlives the first entity of its name), for **every** module
+    `pre ++ [body of n] ++ post` whose specification part declares `n` in a plain interface block and whose
+    access statements give `n` exactly one access word `q` - wherever the statement stands, whatever the module
+    default is, whatever else is declared -: when `process_attribs` returns, the body and the interface entry both
+    report `q`, and `q` is what Fortran says (`fortranAccess`).  A guard that keeps the attribute statements away
+    from procedures with the MODULE prefix contradicts this theorem (and changes the measured `sepBodyTrans`). -/
+theorem own_module_body_access_statement (early spec : Bool) (stmts : List Stmt) (n : Str) (f : Bool)
+    (nm : Str) (ps rs : List Str) (q : Perm) (pre post : List Stmt)
+    (hS : stmts = pre ++ .proc f n :: post) (hc : Stmt.contains ∈ pre)
+    (hI : Stmt.iface .plain nm ps rs ∈ stmts) (hn : n ∈ ps)
+    (hstmt : (entriesFor n (stmtEntries stmts)).filterMap accessWord = [q])
+    (hprot : Attr.acc .prot ∉ entriesFor n (stmtEntries stmts)) :
+    (∃ b ∈ (runUnit ⟨.afterLoop, early, spec⟩ false stmts).attr, ∃ i ∈ (runUnit ⟨.afterLoop, early, spec⟩ false stmts).attr,
+      b.cat = (if f then .func else .sub) ∧ b.name = n ∧ i.cat = .iface ∧ i.wrapper = true ∧ i.name = n ∧
+      b.perm = q ∧ i.perm = q) ∧ fortranAccess stmts [] n = q := by
+  refine ⟨?_, fortranAccess_one stmts n q hstmt hprot⟩
+  obtain ⟨pg, ig, hGm⟩ := mem_entsFrom stmts (init false).perm false _ hI
+  obtain ⟨g0, hg0, hgc, hgw, hgn⟩ : ∃ e0 ∈ mkEnts pg pg ig (.iface .plain nm ps rs),
+      e0.cat = .iface ∧ e0.wrapper = true ∧ e0.name = n :=
+    ⟨_, List.mem_map.2 ⟨n, hn, rfl⟩, rfl, rfl, rfl⟩
+  have hinc : (false || hasContains pre) = true := by simpa [hasContains] using hc
+  obtain ⟨t0, ht0, htc, htn, _⟩ := mkEnts_declares (lastBare (init false).perm pre) (false || hasContains pre) (.proc f n)
+    (fun _ => hinc) ((if f then .func else .sub), n, []) (by simp [declares])
+  simp only at htc htn
+  have ht0' : t0 ∈ entsFrom (init false).perm false stmts := by
+    rw [hS, entsFrom_append]
+    exact List.mem_append_right _ (mkEnts_sub_entsFrom _ _ _ post t0 ht0)
+  obtain ⟨ht1, ht2⟩ := afterLoop_same_name early spec false stmts n q hstmt hprot t0 ht0'
+    (by rw [htc]; cases f <;> decide) htn
+  obtain ⟨hg1, hg2⟩ := afterLoop_same_name early spec false stmts n q hstmt hprot g0 (hGm _ hg0) (by rw [hgc]; decide) hgn
+  refine ⟨_, ht1, _, hg1, by simpa using htc, by simpa using htn, by simpa using hgc, ?_, by simpa using hgn, ht2, hg2⟩
+  cases spec <;> simpa [upd, specUpd] using hgw
+
+/-- worked instance (non-vacuity): default-private module, `public :: solve`, interface bodies `solve` and `setup`,
+    both bodies in the module: `solve` public on both objects, `setup` private on both, and the module hands
+    exactly `solve` to its users -/
+example :
+    (let o := runUnit ⟨.afterLoop, true, true⟩ false
+        [.bare .priv, .access (.acc .pub) [chars! "solve"], .iface .plain [] [chars! "solve", chars! "setup"] [],
+         .contains, .proc false (chars! "solve"), .proc false (chars! "setup")]
+     (o.ents.map (fun e => (e.cat, e.name, e.perm)), o.exports))
+    = ([(.iface, chars! "solve", .pub), (.iface, chars! "setup", .priv), (.sub, chars! "solve", .pub),
+        (.sub, chars! "setup", .priv)], [(.procs, chars! "solve")]) := by
+  decide
+
+/-- **Why the deletion order matters here (code before the constructor repair).**  With `perEntity` the procedure -
+    first in `process_attribs`' order - takes the statement and deletes it: the interface entry of the same entity
+    keeps the module default, and, being the later entry of `all_procs`, keeps the public procedure out of
+    `pub_procs`.  With `afterLoop` both are public and the procedure is exported.  Fortran: public. -/
+theorem own_module_body_deletion_order_witness :
+    let prog : List Stmt := [.bare .priv, .access (.acc .pub) [chars! "f"], .iface .plain [] [chars! "f"] [],
+      .contains, .proc false (chars! "f")]
+    ((runUnit asIs false prog).ents.map (fun e => (e.cat, e.perm)) = [(.iface, .priv), (.sub, .pub)]) ∧
+    (runUnit asIs false prog).exports = [] ∧
+    ((runUnit ⟨.afterLoop, false, false⟩ false prog).ents.map (fun e => (e.cat, e.perm)) = [(.iface, .pub), (.sub, .pub)]) ∧
+    (runUnit ⟨.afterLoop, false, false⟩ false prog).exports = [(.procs, chars! "f")] ∧
+    fortranAccess prog [] (chars! "f") = .pub := by
+  decide
+
+/-- **Known defect (short-form body in the module of its interface).**  `private` / `public :: f` /
+    `interface; module subroutine f` / `contains` / `module procedure f`: the body (`modprocedures`, a list
+    `process_attribs` never walks) keeps the module default `private` although the entity is public, while the
+    interface entry is public; the other way round for `private :: f` in a default-public module.  With the
+    candidate repair (`implAttr`, fixes/C04-own-module-short-body.diff) the body takes the statement's word. -/
+theorem own_module_short_body_witness (v : Variant) (g : Bool) :
+    let prog (d w : Perm) : List XStmt :=
+      [.stmt (.plain (.bare d)), .stmt (.plain (.access (.acc w) [chars! "f"])),
+       .stmt (.plain (.iface .plain [] [chars! "f"] [])), .stmt (.plain .contains), .impl (chars! "f")]
+    (runXI v g false false [] (prog .priv .pub)).impls = [⟨chars! "f", .priv⟩] ∧
+    (runXI v g false false [] (prog .pub .priv)).impls = [⟨chars! "f", .pub⟩] ∧
+    (runXI v g false true [] (prog .priv .pub)).impls = [⟨chars! "f", .pub⟩] ∧
+    (runXI v g false true [] (prog .pub .priv)).impls = [⟨chars! "f", .priv⟩] ∧
+    ((runXI v g false false [] (prog .priv .pub)).out.ents.map (fun e => (e.cat, e.perm)) = [(.iface, .pub)]) ∧
+    fortranAccess [.bare .priv, .access (.acc .pub) [chars! "f"], .iface .plain [] [chars! "f"] [], .contains] []
+      (chars! "f") = .pub := by
+  obtain ⟨d, e, sp⟩ := v
+  cases d <;> cases e <;> cases sp <;> cases g <;> decide
+
+/-- **Short-form body, repaired.**  With the loop over `modprocedures` (`implAttr`), for every module (any variant,
+    any host, any other statements, the body anywhere in the procedure part): a short-form body `n` whose name the
+    attribute statements of the module give exactly one access word `q` reports `q` after `correlate` - the
+    accessibility of the entity, the same as its interface entry by `own_module_body_access_statement`'s argument.
+    Rests on the measured `implShortTakesIface = false` (correlate leaves the permission alone). -/
+theorem own_module_short_body_repaired (v : Variant) (g : Bool) (host : List (Str × Perm)) (xs : List XStmt)
+    (n : Str) (q : Perm) (hi : XStmt.impl n ∈ xs)
+    (hstmt : (entriesFor n (attrsOf g false xs)).filterMap accessWord = [q])
+    (hprot : Attr.acc .prot ∉ entriesFor n (attrsOf g false xs)) :
+    ∃ k ∈ (runXI v g false true host xs).impls, k.name = n ∧ k.perm = q := by
+  obtain ⟨k0, hk0, hn0⟩ := implsFrom_mem g n xs (init false).perm hi
+  refine ⟨⟨n, q⟩, ?_, rfl, rfl⟩
+  simp only [runXI, List.mem_map]
+  refine ⟨implUpd true (attrsOf g false xs) k0, ⟨k0, hk0, rfl⟩, ?_⟩
+  simp only [implUpd, if_true, takeHost, implShortTakesIface, Bool.false_eq_true, if_false, hn0]
+  rw [applyAttrs_one n _ _ q hstmt hprot]
+
+/-- **The measured tables of the own-module bodies say what the theorems above use.**  The translator parses, with the
+    code under test, a module `[private] / w :: e1, e2 / interface bodies e1, e2 / contains / module subroutine e1 /
+    module procedure e2` for every default and access word and records the permission of each object after
+    `process_attribs`.  Long-form body and interface entries: the model's application step reproduces every triple
+    ("a recognised word overwrites"), every pair default x word is covered.  Short-form body: either nothing reaches
+    it (code as it is - the known defect) or the application step as well (repaired). -/
+theorem own_module_body_tables_sound (n : Str) :
+    (∀ x ∈ sepBodyTrans, applyAttrs applyWords n x.1 [(n, .acc x.2.1)] = x.2.2) ∧
+    (∀ x ∈ sepIfaceTrans, applyAttrs applyWords n x.1 [(n, .acc x.2.1)] = x.2.2) ∧
+    (∀ cur w : Perm, cur ≠ .prot → (cur, w) ∈ sepBodyTrans.map (fun x => (x.1, x.2.1))) ∧
+    (∀ cur w : Perm, cur ≠ .prot → (cur, w) ∈ sepShortTrans.map (fun x => (x.1, x.2.1))) ∧
+    ((∀ x ∈ sepShortTrans, x.2.2 = x.1) ∨
+     (∀ x ∈ sepShortTrans, applyAttrs applyWords n x.1 [(n, .acc x.2.1)] = x.2.2)) := by
+  refine ⟨?_, ?_, ?_, ?_, ?_⟩
+  · intro x hx; rw [applyAttrs_single]; revert x; decide
+  · intro x hx; rw [applyAttrs_single]; revert x; decide
+  · intro cur w h; cases cur <;> cases w <;> first | decide | exact absurd rfl h
+  · intro cur w h; cases cur <;> cases w <;> first | decide | exact absurd rfl h
+  · first
+    | (left; decide)
+    | (right; intro x hx; rw [applyAttrs_single]; revert x; decide)
+
 end Ford.C04
